@@ -2,8 +2,8 @@
 
 1. TLC explores the lock model: every (node state x endpoint x request class) program run in sequences of up to
    3 calls (Seq), and one request interleaved with one internal event of the daemon at lock operations (Conc).
-   The configurations that contain a confirmed defect are expected to fail; the "_around" configurations, which
-   leave the defect's request class out, must hold.
+   Both configurations must hold (the defects F1 and F40 they used to report are repaired; should a defect be
+   confirmed and left open again, DaemonEndpoints has the constants Skip / NoScan to explore around it).
 2. The Go harness replays every (state, endpoint, shape) edge on real daemons, directly and through the real
    gRPC / REST listeners, with probes afterwards, and records an ndjson trace.
 3. TLC validates the trace with Trace_DaemonEndpoints: Responds / StillServes / NoLockLeft / LoopAlive /
@@ -88,21 +88,13 @@ def triage(ctx, alarms, monitors, stage="endpoints"):
 
 
 def design_seq(ctx):
-    r = ctx.model_check("MC_DaemonEndpoints", "MC_DaemonEndpoints.cfg", name="mc-seq", expect_ok=False, workers=2, timeout=600)
-    ctx.notes.append("MC_DaemonEndpoints (every endpoint x class x state, sequences <= 3): %s" %
-                     ("TLC reports %s: a handler waits for a lock nobody will release (model counterexample; replayed on the real daemon below)" % r.violated
-                      if r.violated else "holds"))
-    ctx.model_check("MC_DaemonEndpoints", "MC_DaemonEndpoints_around.cfg", name="mc-seq-around", workers=2, timeout=600)
+    # every endpoint x request class x node state, sequences of up to 3 calls
+    ctx.model_check("MC_DaemonEndpoints", "MC_DaemonEndpoints.cfg", name="mc-seq", workers=2, timeout=600)
 
 
 def design_conc(ctx):
-    r = ctx.model_check("MC_DaemonEndpoints", "MC_DaemonEndpoints_conc.cfg", name="mc-conc", expect_ok=False, workers=2, timeout=600)
-    ctx.notes.append("MC_DaemonEndpoints_conc (one request || one internal step, interleaved at lock operations): %s" %
-                     ("TLC reports %s: a request and the daemon's own step wait for each other (model counterexample; replayed with gates below)" % r.violated
-                      if r.violated else "holds"))
-    ctx.model_check("MC_DaemonEndpoints", "MC_DaemonEndpoints_conc_around.cfg", name="mc-conc-around", workers=2, timeout=900)
-    if not ctx.quick:
-        ctx.model_check("MC_DaemonEndpoints", "MC_DaemonEndpoints_conc_abba.cfg", name="mc-conc-abba", workers=2, timeout=900)
+    # one request || one internal step of the daemon, interleaved at lock operations; complete graph
+    ctx.model_check("MC_DaemonEndpoints", "MC_DaemonEndpoints_conc.cfg", name="mc-conc", workers=2, timeout=900)
 
 
 def run(ctx, monitors=MONITORS):
